@@ -121,12 +121,27 @@ func searchPossibleConflict(instance *datadoghqv1alpha1.ExtendedDaemonsetSetting
 	}
 	sort.Sort(edsNodes)
 
+	// The instance's own selector must be usable, whatever the nodes are. A setting whose selector
+	// is unusable is reported on its own reconcile and cannot select any node: it is skipped here
+	// so that it does not put every other setting of the namespace in error.
+	if instance != nil {
+		if _, err := metav1.LabelSelectorAsSelector(&instance.Spec.NodeSelector); err != nil {
+			return "", err
+		}
+	}
+	selectors := make(map[string]labels.Selector, len(edsNodes))
+	for _, edsNode := range edsNodes {
+		if selector, err := metav1.LabelSelectorAsSelector(&edsNode.Spec.NodeSelector); err == nil {
+			selectors[edsNode.Name] = selector
+		}
+	}
+
 	nodesAlreadySelected := map[string]string{}
 	for _, node := range nodeList.Items {
 		for _, edsNode := range edsNodes {
-			selector, err2 := metav1.LabelSelectorAsSelector(&edsNode.Spec.NodeSelector)
-			if err2 != nil {
-				return "", err2
+			selector, usable := selectors[edsNode.Name]
+			if !usable {
+				continue
 			}
 			if selector.Matches(labels.Set(node.Labels)) {
 				if edsNode.Name == instance.Name {
